@@ -5,7 +5,8 @@ import runlib as R
 ID = 'C13'
 COQ_TARGETS = ['Props/Properties_C13.vo']
 PROPS_FILES = ['Props/Properties_C13.v']
-THEOREMS = ['C13_exists', 'C13_exact', 'C13_confined', 'C13_bounce_line']
+THEOREMS = ['C13_exists', 'C13_exact', 'C13_confined', 'C13_bounce_line', 'C13_checker_sound', 'C13_model_passes_checker']
+SHRINK_FROM = 3      # keep users/cdb and the domain of a failing case, shrink layout / bounce / local part / tail
 ENGINES = [dict(name='vpop', c_sources=['vpop_h.c'], extract='Extract/Extract_vpop.v', driver='vpop_driver.ml',
                 glue=('glue.ml', 'glue_z.ml'), accepts=lambda c: c.startswith('c1 '))]
 RULE = ('cases = (users/cdb records, domain, domain directory layout, control/vpopbounce, local part, bytes following the local '
